@@ -232,7 +232,8 @@ def rename_words(text, ren):
     import re
     if not ren:
         return text
-    return re.sub(r"[A-Za-z_][A-Za-z0-9_]*", lambda m: ren.get(m.group(0), m.group(0)), text)
+    # a name that follows a dot is a member of a dotted path (`.lb` / `g0.lb`): a symbol-table child, never the block label
+    return re.sub(r"(?<![.A-Za-z0-9_])[A-Za-z_][A-Za-z0-9_]*", lambda m: ren.get(m.group(0), m.group(0)), text)
 
 
 def subst_tree(t, mapping):
@@ -276,11 +277,23 @@ def gen_pair(rng):
     label_at = sorted(rng.sample(range(n + 1), len(labels)))
     li = 0
     uses_macro = 0
+    # caller-side *local* labels that carry the same bare name as a label inside some macro's block: written with a
+    # leading dot they are children of the caller's last global label, never the callee's block label
+    block_label_names = [it[1] for m in g.macros for blk in m["blocks"] for it in blk if it[0] == "label"]
+    cur_locals = []
+    cur_global = None
     for j in range(n + 1):
         while li < len(labels) and label_at[li] == j:
             body.append(labels[li] + ":")
             twin.append(labels[li] + ":")
+            cur_global = labels[li]
             li += 1
+            cur_locals = []
+            if block_label_names and rng.random() < 0.5:
+                for nm in rng.sample(block_label_names, min(len(block_label_names), rng.randint(1, 2))):
+                    body.append("." + nm + ":")
+                    twin.append("." + nm + ":")
+                    cur_locals.append("." + nm)
         if j == n:
             break
         r = rng.random()
@@ -294,12 +307,15 @@ def gen_pair(rng):
                 elif q < 0.7:
                     args.append(rng.choice(list(consts)))
                 elif q < 0.85 and (typ is None or typ[1] >= 16):
-                    args.append(rng.choice(labels))
+                    args.append(rng.choice(labels + cur_locals + cur_locals))
                 else:
                     args.append("(%d + %d)" % (rng.randint(0, 40), rng.randint(0, 40)))
             text = m["name"] + (" " + ", ".join(args) if args else "")
             body.append(text)
-            twin.extend(g.expand_macro(text, "c%d" % j))
+            # in the inlined twin the block labels become global labels of the program, which would re-parent a
+            # dot-relative argument: the twin names the caller's local label by its full path instead
+            twin_args = [(cur_global + a) if a.startswith(".") else a for a in args]
+            twin.extend(g.expand_macro(m["name"] + (" " + ", ".join(twin_args) if twin_args else ""), "c%d" % j))
             uses_macro += 1
         elif r < 0.62 and getattr(g, "fn_rule_names", None):
             nm, np_ = rng.choice(g.fn_rule_names)
